@@ -766,6 +766,23 @@ func (x *Exec) execStmt(st *State, s ast.Stmt) *State {
 		if c == nil {
 			c = x.eng.cf.Contracts[x.qual]
 		}
+		if c != nil && len(c.AssertAfter) > 0 && !x.infeasible(out) {
+			switch s.(type) {
+			case *ast.AssignStmt, *ast.ExprStmt, *ast.IncDecStmt, *ast.DeclStmt, *ast.SendStmt:
+				txt := x.eng.srcText(s)
+				for _, aa := range c.AssertAfter {
+					if strings.HasPrefix(txt, aa.Anchor) {
+						x.anchorHits["assertafter:"+aa.Anchor]++
+						es := out.clone()
+						x.skolem = true
+						g := x.evalClauseIn(es, aa.Cl, s.End(), x.frame().qual)
+						x.skolem = false
+						x.oblige(out, "assert", aa.Cl.Name, g, s.Pos(), aa.Cl.Props)
+						x.assume(out, g)
+					}
+				}
+			}
+		}
 		if c != nil && len(c.GhostAfter) > 0 {
 			switch s.(type) {
 			case *ast.AssignStmt, *ast.ExprStmt, *ast.IncDecStmt, *ast.DeclStmt, *ast.SendStmt:
